@@ -17,10 +17,12 @@ Record lrow := mkLrow { lr_actor : N; lr_action : N; lr_n : N; lr_start : Z; lr_
 Record crow := mkCrow { cr_actor : N; cr_action : N; cr_start : Z; cr_dur : Z; cr_status : N }.
 Record clrow := mkClrow { cl_actor : N; cl_n : N; cl_start : Z; cl_end : Z; cl_rc : Z }.
 Record lcase := mkLcase {
-  lc_play : play;
+  lc_play : play;                    (* the compiled play, from the real parser + compiler *)
+  lc_script : play;                  (* what the script TEXT denotes, from the generator's own description *)
   lc_marks : list (N * bool);        (* per action name: does the script TEXT mark it `?` (names are unique per line and step) *)
   lc_ran : nat; lc_count : Z; lc_timeout : Z; lc_tempo : Z;
   lc_spot : N;                       (* 0 none, 1 keep running, 2 all exit 0 by themselves, 3 one exits non-zero *)
+  lc_rdv : bool;                     (* the actions of the play rendezvous: they must all run at the same instant *)
   lc_launch : Z; lc_exit_t : Z; lc_exit : Z;
   lc_cleanups : list clrow; lc_ledger : list lrow; lc_csv : list crow }.
 
@@ -72,8 +74,20 @@ Definition cand_K (c : lcase) : list nat :=
 
 (** The number of iterations the ledger shows: the first admissible K whose
     skeleton has as many actions as the ledger has rows. *)
-Definition choose_K (c : lcase) : option nat :=
-  find (fun K => Nat.eqb (length (skeleton (lc_play c) (lc_ran c) K)) (length (lc_ledger c))) (cand_K c).
+Definition choose_K_for (p : play) (c : lcase) : option nat :=
+  find (fun K => Nat.eqb (length (skeleton p (lc_ran c) K)) (length (lc_ledger c))) (cand_K c).
+Definition choose_K (c : lcase) : option nat := choose_K_for (lc_play c) c.
+
+(** Structural equality of plays. *)
+Definition stepk_eqb (a b : stepk) : bool :=
+  match a, b with
+  | SDo x f, SDo y g => (x =? y)%N && Bool.eqb f g
+  | SAmb x, SAmb y => (x =? y)%N
+  | _, _ => false
+  end.
+Definition line_eqb (a b : line) : bool := (l_actor a =? l_actor b)%N && list_eqb stepk_eqb (l_steps a) (l_steps b).
+Definition scene_eqb (a b : scene) : bool := (waitUntil a =? waitUntil b) && list_eqb line_eqb (s_lines a) (s_lines b).
+Definition play_eqb (a b : play) : bool := list_eqb (list_eqb scene_eqb) a b.
 
 (** Position of an event. *)
 Definition pos := (nat * nat * nat * nat)%type.
@@ -345,12 +359,25 @@ Definition brackets_bad (c : lcase) (sk : list (ev * N)) : bool :=
     unexpected number of rows, a non-zero exit status). *)
 Definition bit (b : bool) (v : N) : N := if b then v else 0%N.
 
+(** rendezvous plays: every action waits until all the others have started, so
+    all the intervals the commands experienced contain one common instant. *)
+Definition rendezvous_bad (c : lcase) : bool :=
+  lc_rdv c &&
+  let big := 4000000000000000000 in
+  let maxs := fold_left (fun m r => Z.max m (lr_start r)) (lc_ledger c) 0 in
+  let mine := fold_left (fun m r => if lr_end r <? 0 then m else Z.min m (lr_end r)) (lc_ledger c) big in
+  mine <? maxs.
+
+(** The plain-meaning oracle is evaluated against what the script TEXT denotes
+    ([lc_script]); 64 = the compiled play differs from it. *)
 Definition c04_oracle_mask (c : lcase) : N :=
-  match choose_K c with
+  N.add (bit (negb (play_eqb (lc_play c) (lc_script c))) 64%N)
+ (N.add (bit (rendezvous_bad c) 128%N)
+  match choose_K_for (lc_script c) c with
   | None => 32%N
   | Some K =>
-      let acts := unroll (lc_play c) (lc_ran c) K in
-      let sk := skeleton (lc_play c) (lc_ran c) K in
+      let acts := unroll (lc_script c) (lc_ran c) K in
+      let sk := skeleton (lc_script c) (lc_ran c) K in
       let led := lc_ledger c in
       let incomplete := negb (lc_exit c =? 0) || existsb (fun r => lr_end r <? 0) led
              || negb (forallb (fun en => match obs_of led en with Some _ => true | None => false end) sk) in
@@ -359,6 +386,6 @@ Definition c04_oracle_mask (c : lcase) : N :=
      (N.add (bit (tempo_bad led sk (act_bounds led sk acts O (t_begin c))) 4%N)
      (N.add (bit (rows_bad c) 8%N)
      (N.add (bit (brackets_bad c sk) 16%N) (bit incomplete 32%N)))))
-  end.
+  end).
 
 Definition c04_oracle_bad (c : lcase) : bool := negb (c04_oracle_mask c =? 0)%N.
